@@ -91,10 +91,11 @@ func init() {
 		Batches: []batchSpec{
 			{Name: "l1", World: "authz", Weight: 5},
 			{Name: "l2", World: "authz", Weight: 3, Park: 0.005, Gos: 0.02},
+			{Name: "oidc", World: "oidc", Weight: 2},
 		},
-		Stub:   []string{"network (simnet)", "scripted clients, visitors and adversaries (independent protocol implementation)", "users", "clock"},
-		Rule:   "one run = real frps (token auth, drawn additional scopes, TLS and mux on/off, finite heartbeat timeout) with an honest scripted client carrying traffic and a seeded sequence of adversarial histories (bad/missing/self-exempting logins, foreign or unknown work connections, unauthenticated first messages, invalid-heartbeat sessions, floods); distinct = distinct event-log hash",
-		Assume: []string{"OIDC method, kcp/quic/websocket listeners and the ssh gateway's internal listener are not exercised"},
+		Stub:   []string{"network (simnet)", "scripted clients, visitors and adversaries (independent protocol implementation)", "ssh client (x/crypto/ssh) for the tunnel gateway", "stub OIDC issuer (discovery document + JWKS over the simulated network, ES256 tokens minted by the harness)", "users", "clock"},
+		Rule:   "one run = real frps (token auth, drawn additional scopes, TLS and mux on/off, finite heartbeat timeout) with an honest scripted client carrying traffic and a seeded sequence of adversarial histories (bad/missing/self-exempting logins, foreign or unknown work connections, unauthenticated first messages, invalid-heartbeat sessions, floods), in 40% of the runs with the ssh tunnel gateway (authorized / unauthorized key, or no ssh authentication and right / wrong / missing token); batch oidc: real frps with the OIDC method (audience, expiry and issuer checks drawn) against a stub issuer, scripted clients presenting valid tokens and 7-11 invalid variants (empty, garbage, unpublished key, alg none, empty signature, HS256, swapped payload, expired, wrong issuer, wrong or missing audience) in logins, heartbeats and work connections; distinct = distinct event-log hash",
+		Assume: []string{"kcp/quic listeners are not exercised; the websocket entry is exercised in C05's policy scenarios"},
 	})
 	reg(&propSpec{ID: "C08", Level: "exploration",
 		Batches: []batchSpec{
